@@ -7,22 +7,23 @@ import (
 	"go/types"
 	"sort"
 	"strings"
+	"sync"
 )
 
 // FuncReport is the per-function part of the result.
 type FuncReport struct {
-	Name      string   `json:"name"`
-	Props     []string `json:"props"`
-	Kind      string   `json:"kind"` // function, theorem, lemma, init
-	Status    string   `json:"status"` // verified-pending, outside-subset, stale-contract, engine-error
-	Reason    string   `json:"reason,omitempty"`
-	Externs   []string `json:"assumed_externs,omitempty"`
-	Inlined   []string `json:"inlined_helpers,omitempty"`
-	Notes     []string `json:"notes,omitempty"`
-	Axioms    []string `json:"assumed_axioms,omitempty"` // axioms of uninterpreted spec functions in the queries of this function (assumptions, not proved)
-	NumObl    int      `json:"obligations"`
-	Pos       string   `json:"pos,omitempty"`
-	obls      []*Oblig
+	Name    string   `json:"name"`
+	Props   []string `json:"props"`
+	Kind    string   `json:"kind"`   // function, theorem, lemma, init
+	Status  string   `json:"status"` // verified-pending, outside-subset, stale-contract, engine-error
+	Reason  string   `json:"reason,omitempty"`
+	Externs []string `json:"assumed_externs,omitempty"`
+	Inlined []string `json:"inlined_helpers,omitempty"`
+	Notes   []string `json:"notes,omitempty"`
+	Axioms  []string `json:"assumed_axioms,omitempty"` // axioms of uninterpreted spec functions in the queries of this function (assumptions, not proved)
+	NumObl  int      `json:"obligations"`
+	Pos     string   `json:"pos,omitempty"`
+	obls    []*Oblig
 }
 
 func splitConj(t string) []string {
@@ -656,6 +657,7 @@ func (e *Engine) verifyLemma(lm *Lemma) *FuncReport {
 		can.Expect = "sat"
 		for i, part := range splitConj(en) {
 			c.oblige("lemma", fmt.Sprintf("#%d", i+1), tTrue, part, token.NoPos, lm.Name)
+			c.assume(tTrue, part) // later conjuncts may use earlier (proved) ones
 		}
 	} else {
 		v := consts[lm.Induction]
@@ -815,6 +817,39 @@ func (e *Engine) smtText(o *Oblig, extra string, splitCase string) string {
 		used[k] = true
 	}
 	closure := e.specClosure(used)
+	// an attached lemma whose target function is in the closure brings the spec functions it mentions with it
+	// (otherwise it would have to be dropped exactly where it is needed)
+	for changed := true; changed; {
+		changed = false
+		inCl := map[string]bool{}
+		for _, sf := range closure {
+			inCl[sf.Name] = true
+		}
+		for _, ln := range e.specs.lorder {
+			lm := e.specs.lemmas[ln]
+			if "lemma:"+lm.Name == c.fn {
+				break
+			}
+			att := false
+			for _, a := range lm.Attach {
+				if inCl[a] {
+					att = true
+				}
+			}
+			if !att {
+				continue
+			}
+			for u := range e.lemmaUses(lm) {
+				if !used[u] {
+					used[u] = true
+					changed = true
+				}
+			}
+		}
+		if changed {
+			closure = e.specClosure(used)
+		}
+	}
 	var closureText strings.Builder
 	for _, sf := range closure {
 		if strings.Contains(sf.decl, "Str") {
@@ -921,7 +956,7 @@ func (e *Engine) smtText(o *Oblig, extra string, splitCase string) string {
 				ax := e.lemmaAxiom(lm, sc)
 				ok := true
 				for u := range sc.used {
-					if !inClosure[u] {
+					if e.specs.funcs[u] != nil && !inClosure[u] {
 						ok = false
 					}
 				}
@@ -1043,4 +1078,31 @@ func nonObjEq(a, b Val) string {
 		cs = append(cs, tEq(la[i], lb[i]))
 	}
 	return tAnd(cs...)
+}
+
+// lemmaUses: the spec functions a lemma's statement mentions (cached).
+var lemmaUseMu sync.Mutex
+
+func (e *Engine) lemmaUses(lm *Lemma) map[string]bool {
+	lemmaUseMu.Lock()
+	defer lemmaUseMu.Unlock()
+	if e.lemmaUse == nil {
+		e.lemmaUse = map[string]map[string]bool{}
+	}
+	if u, ok := e.lemmaUse[lm.Name]; ok {
+		return u
+	}
+	sc := newCtx(e, nil, "lemma-ax", nil)
+	func() {
+		defer func() { recover() }()
+		e.lemmaAxiom(lm, sc)
+	}()
+	u := map[string]bool{}
+	for k := range sc.used {
+		if e.specs.funcs[k] != nil {
+			u[k] = true
+		}
+	}
+	e.lemmaUse[lm.Name] = u
+	return u
 }
